@@ -83,6 +83,65 @@ def styles_for(sd):
             ("r", apidoc.Style(pathref=0.8, rnd=random.Random(sd + 6)))]
 
 
+def type_entry_users(chk):
+    """the catalog entry of a user type says what its TYPE directive declares - whoever uses the type: as a Path body
+    (directly, through an alias), as a body, as a base, in a Query or not at all.  Two real runs compared entry by entry."""
+    import json
+    import rel
+    from common import harness
+    tdef = ('TYPE @zpo\n{\n  "w": 1, // {optional: true}\n  "v": "s" // {optional: true, minLength: 1}\n}\n'
+            'TYPE @zreq\n{\n  "w": 2, // {min: 0}\n  "v": "t"\n}\n')
+    users = {
+        "none": 'GET /zu/{w}/{v}\n  200 any\n',
+        "path": 'URL /zu/{w}/{v}\n  Path\n    @zpo\n  GET\n    200 any\n',
+        "path_required": 'URL /zu/{w}/{v}\n  Path\n    @zreq\n  GET\n    200 any\n',
+        "path_alias": 'TYPE @zal\n  @zpo\nURL /zu/{w}/{v}\n  Path\n    @zal\n  GET\n    200 any\n',
+        "path_in_method": 'GET /zu/{w}/{v}\n  Path\n    @zpo\n  200 any\n',
+        "body": 'POST /zu\n  Request @zpo\n  200 [@zpo]\n',
+        "base": 'TYPE @zheir\n{ // {allOf: "@zpo"}\n  "x": 1\n}\nGET /zu\n  200 @zheir\n',
+        "query_and_headers": 'GET /zu\n  Query\n    @zpo\n  Request\n    Headers @zreq\n    Body any\n  200 any\n',
+        "two_paths": 'URL /zu/{w}/{v}\n  Path\n    @zpo\n  GET\n    200 any\nURL /zt/{w}/{v}\n  Path\n    @zpo\n  PUT\n    200 any\n',
+    }
+    cases = []
+    for nm, u in users.items():
+        cases.append(rel.case("tu_" + nm + "_a", "JSIGHT 0.3\n" + tdef + u))
+        cases.append(rel.case("tu_" + nm + "_b", "JSIGHT 0.3\n" + u + tdef))
+    obs = harness("run", cases)
+    base = obs["tu_none_a"]
+    if base["outcome"] != "ok":
+        return
+    want = {k: v for k, v in json.loads(base["json"])["userTypes"].items() if k in ("@zpo", "@zreq")}
+    for nm in users:
+        for sfx in ("_a", "_b"):
+            o = obs["tu_" + nm + sfx]
+            chk.evaluations += 1
+            chk.traces += 1
+            chk.nontrivial.add("type_entry_users:" + nm + sfx)
+            if o["outcome"] != "ok":
+                continue               # (a use the language does not allow: nothing to compare)
+            cat = json.loads(o["json"])
+            got = {k: v for k, v in cat["userTypes"].items() if k in want}
+            bad = None
+            if got != want:
+                k = next(k for k in want if got.get(k) != want[k])
+                bad = "the entry of %s differs from the entry it has when nothing uses it: %s" % (k, apidoc.first_diff(want[k], got.get(k), k))
+            elif nm.startswith("path") or nm == "two_paths":
+                # "each with the declared schema": the path variables carry the declared rules
+                tname = "@zreq" if nm == "path_required" else "@zpo"
+                decl = {c["key"]: c for c in want[tname]["schema"]["content"]["children"]}
+                for iid, it in cat["interactions"].items():
+                    for c in ((it.get("pathVariables") or {}).get("schema") or {}).get("content", {}).get("children") or []:
+                        d = decl.get(c.get("key"))
+                        if d is not None and (c.get("optional"), c.get("type"), c.get("rules")) != (d.get("optional"), d.get("type"), d.get("rules")):
+                            bad = "path variable %s of %s: optional / type / rules %s, declared %s" % (
+                                c.get("key"), iid, (c.get("optional"), c.get("type"), c.get("rules")), (d.get("optional"), d.get("type"), d.get("rules")))
+            if bad:
+                sig = {"what": "type entry depends on its users", "variant": nm}
+                text = common.unb64(next(x for x in cases if x["id"] == "tu_" + nm + sfx)["files"]["main.jst"]).decode()
+                chk.violation(bad + " | document:\n" + text, {"kind": "type_users", "file": text, "file_without_user": "JSIGHT 0.3\n" + tdef + users["none"],
+                                                                 "variant": nm, "signature": sig}, sig)
+
+
 def main(tier):
     chk = Check("C04", tier)
     sd = seed()
@@ -98,6 +157,7 @@ def main(tier):
                 chk.sample({"doc": v[0]["doc"], "expected_catalog": v[0]["cat"][0]})
         total += compare(chk, "C04", docs, "s%d_" % i, styles)
     chk.extra["documents_compared"] = total
+    type_entry_users(chk)
     chk.rule = ("documents = random abstract API models generated by the JSightApi spec (info, servers, types in four "
                 "notations with references/arrays/enums/allOf, enums, tags, URL blocks, path-bearing methods, JSON-RPC "
                 "blocks, queries, requests and responses in param/inline/child-Body form, headers, Path declarations), "
@@ -111,5 +171,14 @@ def main(tier):
 def replay(path):
     rp = json.load(open(path))["replay"]
     chk = Check("C04", "quick")
+    if rp.get("kind") == "type_users":
+        import rel
+        o = harness("run", [rel.case("a", rp["file_without_user"]), rel.case("b", rp["file"])])
+        chk.evaluations = 1
+        if o["a"]["outcome"] == o["b"]["outcome"] == "ok":
+            ua, ub = json.loads(o["a"]["json"])["userTypes"], json.loads(o["b"]["json"])["userTypes"]
+            if any(ub.get(k) != v for k, v in ua.items() if k in ("@zpo", "@zreq")):
+                chk.violation("reproduced: the entry of a type depends on its users", rp, rp.get("signature"))
+        return chk.finish()
     compare(chk, "C04", [{"doc": rp["doc"], "valid": True, "cat": [rp["expected"]]}], "r", [("c", apidoc.Style())])
     return chk.finish()
